@@ -15,6 +15,7 @@ structure LObj where
   syncTid : String := ""
   accN : Nat := 0                 -- index of the mock acceptor it created (0 = none)
   accClosedObs : Bool := false
+  listenFailed : Bool := false    -- the factory refused to listen in the Sync that is returning
   ret : String := ""              -- observed class of Sync's result ("" = not returned)
   deriving Inhabited
 
@@ -102,7 +103,7 @@ def chanOfThread (s : S) (tid : String) : Option Nat :=
 def connOfChid (s : S) (chid : Nat) : Option Nat := (s.cs.find? (·.chid == chid)).map (·.conn)
 
 /-- the label of a step -/
-def onLabel (s : S) (tid point : String) (case : String) : S :=
+def onLabel (s : S) (tid point : String) (case : String) (evs : List String := []) : S :=
   let (base, suf, obj) := splitPoint point
   match base with
   | "Shutdown.bs-cancel" =>
@@ -128,7 +129,10 @@ def onLabel (s : S) (tid point : String) (case : String) : S :=
       | .created => s.lact obj .syncDecide base
       | .failed => s
       | _ => s.fail s!"Sync.lock: unexpected in {repr o.st}"
-  | "Sync.factory-listen" => s.lact obj .syncListen base
+  | "Sync.factory-listen" =>
+    -- the factory may refuse (address in use …): Sync returns that error and the listener stays usable
+    if evs.any (·.startsWith "acc:refuse") then (s.lact obj .syncListenFail base).updL obj (fun o => { o with listenFailed := true })
+    else s.lact obj .syncListen base
   | "Sync.acc-close" =>
     match s.getL obj with
     | some o => if o.st.pc == .returned true && o.st.acc == .closed then s else s.fail s!"Sync closes its fresh acceptor but the model is in {repr o.st}"
@@ -248,6 +252,9 @@ def onEvent (s : S) (tid point : String) (ev : String) : S :=
       let s := s.updL o.id (fun o => { o with ret := cls })
       if s.dead.isSome then s else
       match o.st.pc with
+      | .idle =>
+        if o.listenFailed && cls == "other" then s.updL o.id (fun o => { o with listenFailed := false, ret := "", syncTid := "" })
+        else s.fail s!"Sync returned {cls} but the model is in {repr o.st}"
       | .returned b => if b == (cls == "closed") then s else s.fail s!"Sync returned {cls}; the model says serverClosed = {b}"
       | _ => s.fail s!"Sync returned {cls} but the model is in {repr o.st}"
   | ["shutdown", "ret", x] =>
@@ -287,10 +294,11 @@ def agreeEnd (s : S) : Option String :=
 
 def handle (s : S) : List String → S × String
   | ["new"] => ({}, "ok")
+  | "cfg" :: _ => (s, "ok")
   | "thr" :: _ :: ops => ({ s with hasShutdown := s.hasShutdown || ops.contains "shutdown" }, "ok")
   | "step" :: tid :: point :: case :: evs =>
     let was := s.dead
-    let s := onLabel s tid point case
+    let s := onLabel s tid point case evs
     let s := evs.foldl (fun s e => onEvent s tid point e) s
     match was, s.dead with
     | none, some d => (s, s!"diff {d}")
